@@ -38,7 +38,11 @@ impl Stream for PipeEnd {
         Box::new(self.clone())
     }
     fn try_clone_to_owned(&self) -> Result<std::os::fd::OwnedFd, brush_core::Error> {
-        no_fd()
+        // an external command may inherit a simulated pipe as an extra descriptor (e.g. a
+        // process substitution); compose_std_command wants an owned descriptor for it. The
+        // simulated process receives the simulated end itself; this placeholder is dropped
+        // with the never-spawned std::process::Command.
+        std::fs::File::open("/dev/null").map(std::os::fd::OwnedFd::from).map_err(|_| brush_core::ErrorKind::CannotConvertToNativeFd.into())
     }
     fn try_borrow_as_fd(&self) -> Result<std::os::fd::BorrowedFd<'_>, brush_core::Error> {
         no_fd()
